@@ -412,12 +412,17 @@ def run(tier, seed, only=None):
                 first = d[0]
                 blk_cb = bool(job.get("callbacks")) and "--blocklist-type" in job["flags"]
                 crosses = blk_cb and typedef_of_blocklisted_crosses(progs[i][0], progs[i][1][k0], progs[i][1][k])
+                dk = diff_kind(d)
+                # The known finding's family: a block-listed type judged through the
+                # implements-trait callback, where only derives differ or a typedef of the
+                # block-listed type crosses its definition (see known_findings.json).
+                family = blk_cb and (crosses or dk == "derives-only")
                 sig = {"class": "order-dependent-bindings", "engine": "O-order",
-                       "blocklist_with_implements_trait_callback": blk_cb,
-                       "typedef_of_blocklisted_type_moves_across_its_definition": crosses}
-                if not crosses:
+                       "blocklist_callback_forward_declaration_family": family}
+                if not family:
                     # anything else is identified more finely
-                    sig.update({"item_kind": first["item"].split(" ")[0], "diff_kind": diff_kind(d)})
+                    sig.update({"item_kind": first["item"].split(" ")[0], "diff_kind": dk,
+                                "blocklist_with_implements_trait_callback": blk_cb})
                 out.violation(sig, {"engine": "c07", "kind": "graph-order", "job_a": job0, "job_b": job,
                                     "fix_a": cfg0, "fix_b": cfg, "diff": d[:6],
                                     "observed": {"class": "order-dependent-bindings", "items": [x["item"] for x in d]}})
